@@ -644,6 +644,31 @@ func NewOpLib() *OpLib {
 		p.Txs = one("lp1", &mctypes.MsgAddExternalIncentive{Sender: a, RewardDenom: "uatom", PoolId: 2, FromBlock: h, ToBlock: h + 3, AmountPerBlock: I(700)},
 			&mctypes.MsgAddExternalIncentive{Sender: a, RewardDenom: "uelys", PoolId: 2, FromBlock: h, ToBlock: h + 3, AmountPerBlock: I(900)})
 	})
+	// the same during an ORACLE OUTAGE (no feed in the block that carries them)
+	l.Add("ext_incentives_two_new_denoms_lp1_nofeed", "ext_incentive", 1, func(w *World, p *BlockPlan) {
+		h := w.Height() + 1
+		a := w.A("lp1").Addr.String()
+		p.Feed = false
+		p.Txs = one("lp1", &mctypes.MsgAddExternalIncentive{Sender: a, RewardDenom: "uatom", PoolId: 2, FromBlock: h, ToBlock: h + 3, AmountPerBlock: I(700)},
+			&mctypes.MsgAddExternalIncentive{Sender: a, RewardDenom: "uelys", PoolId: 2, FromBlock: h, ToBlock: h + 3, AmountPerBlock: I(900)})
+	})
+	// a LARGE all-asset join of the constant-product pool 2 (10 % of its shares; the other p2 joins ask
+	// for 1e15 of 6e24 shares, i.e. dust), with and without a feed in its block
+	for _, nf := range []bool{false, true} {
+		nf := nf
+		name, cost := "join_p2_big_t1", 0
+		if nf {
+			name, cost = "join_p2_big_t1_nofeed", 1
+		}
+		l.Add(name, "join", cost, func(w *World, p *BlockPlan) {
+			a := w.A("t1")
+			if nf {
+				p.Feed = false
+			}
+			pool, _ := w.App.AmmKeeper.GetPool(w.RCtx(), 2)
+			p.Txs = one("t1", &ammtypes.MsgJoinPool{Sender: a.Addr.String(), PoolId: 2, MaxAmountsIn: sdk.NewCoins(C("uusdc", 4e11), C("uelys", 2e11)), ShareAmountOut: pool.TotalShares.Amount.QuoRaw(10)})
+		})
+	}
 	l.Add("commit_eden_lp1", "commit", 0, func(w *World, p *BlockPlan) {
 		cm := w.App.CommitmentKeeper.GetCommitments(w.RCtx(), w.A("lp1").Addr)
 		amt := cm.GetClaimedForDenom("ueden").QuoRaw(2)
